@@ -268,6 +268,36 @@ def check(tier, seed):
     inst = engine_a.generic_instantiate({"*": lambda v: stype_to_python(v) if isinstance(v, str) else v})
     run.cov["parts"]["engine_a"] = engine_a.run(run, MG.CONTRACTS, ns, {"SType": stype_adt()}, inst, jobs=1)
     run.trusted("spec/typealgebra.shape_conflict (SameResponseShape on types)")
+    # --- registry obligations: every rule of section 5 has its checker in the default rule set, and validate_ast runs that set ------------
+    import ast as _pyast
+    import inspect as _inspect
+    import textwrap as _tw
+    import contracts.validation_rules as VR
+    import py_gql.validation as PV
+    from py_gql.validation import validate as PVV
+    backend = "rule-registry inspection"
+    registered = {r.__name__ for r in PV.SPECIFIED_RULES}
+    for title, checker in VR.SPEC_RULES:
+        run.cov["obligations"] += 1
+        run.cov["backends"][backend] = run.cov["backends"].get(backend, 0) + 1
+        if checker in registered:
+            run.cov["discharged"] += 1
+        else:
+            run.violation("SPECIFIED_RULES:%s" % checker, "the checker of specification rule %s (%s) is not in the default rule set" % (title, checker),
+                          {"rule": title, "checker": checker}, False)
+    sig = _inspect.signature(PVV.default_validator)
+    tree = _pyast.parse(_tw.dedent(_inspect.getsource(PVV.validate_ast))).body[0]
+    falls_back = any(isinstance(n, _pyast.If) and _pyast.unparse(n.test) == "validators is None" and
+                     any(_pyast.unparse(b_) == "validators = [default_validator]" for b_ in n.body) for n in _pyast.walk(tree))
+    for oid, ok, what in (("validate_ast:defaults-to-the-specified-rules", falls_back, "validate_ast no longer falls back to default_validator when no validators are given"),
+                          ("default_validator:runs-SPECIFIED_RULES", sig.parameters["validators"].default is PV.SPECIFIED_RULES,
+                           "default_validator's default rule set is not SPECIFIED_RULES")):
+        run.cov["obligations"] += 1
+        run.cov["backends"][backend] = run.cov["backends"].get(backend, 0) + 1
+        if ok:
+            run.cov["discharged"] += 1
+        else:
+            run.violation(oid, what, {}, False)
     run.trusted("vf/ref_validate.py: the 26 validation rules of section 5 as comprehension-style predicates (276 self-test cases incl. the specification's own examples)")
     return run.finish("other", "_types_conflict proved equal to SameResponseShape on types for all type expressions (Engine A, induction through its own "
                                "contract); bounded stand-in: verdict equality with a reference implementation of the specification's validation rules, attribution of "
